@@ -77,7 +77,7 @@ func c09(tier string) int {
 		ages = []enum.Plan{{Family: "ages", Params: "maxn=40"}}
 	}
 	return seqEnumCheck("C09", tier, 240*time.Second, 25*time.Minute, plans, ages,
-		"every GC-free history up to the stated depth (snapshot, RC and RU transactions of different ages, several versions per key) re-run with the collector (virtual GC period elapsing, production path Sched->Send->worker->DeleteOld) inserted at every subset of positions of size <= maxgc, including before the first operation of a just-begun transaction and between its reads; every read of every actor after every step equals the model, for which GC is the identity, and delivers its bytes (every collection pass runs while each actor holds an open reader on every key it can read; the readers are drained after the pass); reads in progress (family heldreader): a reader opened at any position through the autocommit caller or an open transaction, one collection pass at or after it, drained at the end of the history — it must deliver the whole value it was opened on; plus the age dimension (family ages): n = 1..12 (thorough 40) transactions begun one after another with an overwrite after each, five level patterns, the collector after the last Begin and after every end, three end orders, Rollback or Commit, two background policies — every open transaction reads its own version after every step",
+		"every GC-free history up to the stated depth (snapshot, RC and RU transactions of different ages, several versions per key) re-run with the collector (virtual GC period elapsing, production path Sched->Send->worker->DeleteOld) inserted at every subset of positions of size <= maxgc, including before the first operation of a just-begun transaction and between its reads; every read of every actor after every step equals the model, for which GC is the identity, and delivers its bytes (every collection pass runs while each actor holds an open reader on every key it can read; the readers are drained after the pass); reads in progress (family heldreader): a reader opened at any position through the autocommit caller or an open transaction, one collection pass at or after it, drained at the end of the history — it must deliver the whole value it was opened on; plus the age dimension (family ages): n = 1..12 (thorough 40) transactions begun one after another with an overwrite after each, five level patterns, the collector after the last Begin and after every end with a further overwrite after each, four end orders (one ends all but the youngest back to back so that one pass trims a long history while a snapshot is open), Rollback or Commit, two background policies — every open transaction reads its own version after every step",
 		seqAssumptions)
 }
 
